@@ -7,15 +7,16 @@ WT=$1; M=$2; PROP=$3; PKG=$4; ID=$5
 OUT=/verif/seeded/$ID; mkdir -p $OUT
 cd $WT && git checkout -q -- . && git clean -fdq -e out
 P=$WT/out/$M/patch.diff
+DEMO=$WT/out/$M/demo_test.go; [ -f $DEMO ] || DEMO=$WT/out/$M/demo_test.txt
 git apply --check $P || { echo "$ID: patch does not apply"; exit 1; }
 git apply $P
 SUITE=$(go test -vet=off -count=1 $(go list ./... | grep -v /out/) 2>&1 | grep -v "^ok\|no test files" | head -5)
-cp $WT/out/$M/demo_test.go $WT/$PKG/zz_seed_demo_test.go
+cp $DEMO $WT/$PKG/zz_seed_demo_test.go
 DEMO_WITH=$(go test -vet=off -count=1 ./$PKG/ 2>&1 | grep -c "^--- FAIL\|^FAIL\|panic:")
 git checkout -q -- .
 DEMO_WITHOUT=$(go test -vet=off -count=1 ./$PKG/ 2>&1 | grep -c "^--- FAIL\|^FAIL\|panic:")
 rm -f $WT/$PKG/zz_seed_demo_test.go
-cp $P $OUT/patch.diff; cp $WT/out/$M/demo_test.go $OUT/demo_test.go; cp $WT/out/$M/notes.txt $OUT/notes.txt 2>/dev/null
+cp $P $OUT/patch.diff; cp $DEMO $OUT/demo_test.go; cp $WT/out/$M/notes.txt $OUT/notes.txt 2>/dev/null
 # run the check against the scratch worktree with the change applied (VERIF_REPO), /repo stays untouched;
 # the evidence file written by this run belongs to the changed tree: re-run the check on /repo before committing evidence
 cd $WT && git apply $P || { echo "$ID: cannot re-apply"; exit 1; }
